@@ -181,7 +181,7 @@ Theorem gds_real_decode_encode_lemma neg m e :
   gds_decode (gds_encode_with (ideal_exponent m e) neg m e) == sgn neg (dyval m e).
 Proof.
   intros Hm HE. pose proof (log2_53 m Hm) as Hl.
-  unfold ideal_exponent in *. rewrite Hl in *.
+  unfold ideal_exponent, frexp_exponent in *. rewrite Hl in *.
   set (b3 := (e + 52 + 1 + 3)%Z) in *.
   (* shift = (b + 3) mod 4 *)
   assert (Hs : (e + 4 * (14 - b3 / 4) = b3 mod 4)%Z) by (unfold b3; lia).
@@ -200,7 +200,7 @@ Lemma side_condition_Q m e :
    <-> (2 ^ (4 * ideal_exponent m e - e) <= 2 * m)%Z).
 Proof.
   intros Hm. pose proof (log2_53 m Hm) as Hl.
-  assert (Hge : (0 <= 4 * ideal_exponent m e - e)%Z) by (unfold ideal_exponent; rewrite Hl; lia).
+  assert (Hge : (0 <= 4 * ideal_exponent m e - e)%Z) by (unfold ideal_exponent, frexp_exponent; rewrite Hl; lia).
   set (A := (4 * ideal_exponent m e)%Z) in *.
   replace A with ((A - e) + e)%Z at 1 by lia.
   rewrite Qpow2_plus, <- Qpow2_inject by assumption.
@@ -221,7 +221,7 @@ Proof.
   intros Hm HE Hside. pose proof (log2_53 m Hm) as Hl.
   (* the value lies in the top binade: b = 4 E* *)
   assert (Hb : (4 * ideal_exponent m e = e + 53)%Z).
-  { assert (Hlow : (e + 53 <= 4 * ideal_exponent m e)%Z) by (unfold ideal_exponent; rewrite Hl; lia).
+  { assert (Hlow : (e + 53 <= 4 * ideal_exponent m e)%Z) by (unfold ideal_exponent, frexp_exponent; rewrite Hl; lia).
     assert (Hup : (4 * ideal_exponent m e - e < 54)%Z).
     { apply (Z.pow_lt_mono_r_iff 2); [lia|lia|]. change (2 ^ 54)%Z with (2 * 2 ^ 53)%Z. lia. }
     lia. }
@@ -295,7 +295,7 @@ Proof.
   pose proof (Z.log2_spec m Hm) as Hl. pose proof (Z.log2_nonneg m) as Hl0.
   assert (Hm56 : (m < 2 ^ 56)%Z) by (unfold m; change (2 ^ 56)%Z with (Z.of_N (2 ^ 56)); lia).
   assert (HL : (Z.log2 m < 56)%Z) by (apply Z.log2_lt_pow2; assumption).
-  unfold ideal_exponent in *.
+  unfold ideal_exponent, frexp_exponent in *.
   set (E := ((k + Z.log2 m + 1 + 3) / 4)%Z) in *.
   assert (HEup : (E <= Z.of_N e7 - 64)%Z) by (unfold E, k; lia).
   assert (Hceil : (k + Z.log2 m + 1 <= 4 * E)%Z) by (unfold E; lia).
@@ -360,7 +360,7 @@ Corollary gds_to_double_exact_on_encoded neg m e :
 Proof.
   intros Hm HE. unfold gds_to_double_dy. pose proof (log2_53 m Hm) as Hl.
   set (E := ideal_exponent m e) in *.
-  assert (Hs : (0 <= e + 4 * (14 - E) < 4)%Z) by (unfold E, ideal_exponent; rewrite Hl; lia).
+  assert (Hs : (0 <= e + 4 * (14 - E) < 4)%Z) by (unfold E, ideal_exponent, frexp_exponent; rewrite Hl; lia).
   set (s := (e + 4 * (14 - E))%Z) in *.
   assert (Hsh : Z.shiftl m s = (m * 2 ^ s)%Z) by (apply Z.shiftl_mul_pow2; lia).
   assert (Hp : (0 < 2 ^ s <= 2 ^ 3)%Z) by (split; [apply Z.pow_pos_nonneg; lia|apply Z.pow_le_mono_r; lia]).
@@ -513,42 +513,104 @@ Qed.
 
 End Swaps.
 
+(* ================================================================== the encoder as a function of the value
+   gdsii_real_from_double now takes the exponent from frexp: E = ceil (binary_exponent / 4). *)
+Lemma ideal_exponent_is_ceil m e :
+  (2 ^ 52 <= m < 2 ^ 53)%Z ->
+  (frexp_exponent m e = e + 53 /\ 4 * (ideal_exponent m e - 1) < e + 53 <= 4 * ideal_exponent m e)%Z.
+Proof.
+  intros Hm. pose proof (log2_53 m Hm) as Hl. unfold ideal_exponent, frexp_exponent. rewrite Hl. lia.
+Qed.
+
+(* the format's range 16^-65 <= |x| < 16^63 in binades: 2^(b-1) <= |x| < 2^b with -259 <= b <= 252 *)
+Lemma gds_in_range_binades m e :
+  (2 ^ 52 <= m < 2 ^ 53)%Z ->
+  ((-259 <= e + 53 <= 252)%Z <-> (-64 <= ideal_exponent m e <= 63)%Z).
+Proof. intros Hm. destruct (ideal_exponent_is_ceil m e Hm) as [_ H]. lia. Qed.
+
+(* HEADLINE: every normal double in the format's range survives encode ; decode exactly *)
+Theorem gds_real_roundtrip_lemma neg m e :
+  (2 ^ 52 <= m < 2 ^ 53)%Z -> (-259 <= e + 53 <= 252)%Z ->
+  gds_decode (gds_encode neg m e) == sgn neg (dyval m e).
+Proof.
+  intros Hm Hr. unfold gds_encode. apply gds_real_decode_encode_lemma; [assumption|].
+  apply gds_in_range_binades; assumption.
+Qed.
+
+(* and the double the C++ decoder returns for it is that exact value (no 53-bit rounding happens) *)
+Corollary gds_real_roundtrip_double_lemma neg m e :
+  (2 ^ 52 <= m < 2 ^ 53)%Z -> (-259 <= e + 53 <= 252)%Z ->
+  gds_to_double_dy (gds_encode neg m e) = gds_decode_dy (gds_encode neg m e).
+Proof.
+  intros Hm Hr. unfold gds_encode. apply gds_to_double_exact_on_encoded; [assumption|].
+  apply gds_in_range_binades; assumption.
+Qed.
+
+(* the first byte of the pattern: sign bit and excess-64 exponent *)
+Lemma gds_encode_with_first_byte E neg m e :
+  (-64 <= E <= 63)%Z -> (0 <= Z.shiftl m (e + 4 * (14 - E)) < 2 ^ 56)%Z ->
+  N.shiftr (gds_encode_with E neg m e) 56 = ((if neg then 128 else 0) + Z.to_N (64 + E))%N.
+Proof.
+  intros HE HM. unfold gds_encode_with.
+  set (M := Z.shiftl m (e + 4 * (14 - E))) in *.
+  assert (HMN : (Z.to_N M < 2 ^ 56)%N) by (change (2 ^ 56)%N with (Z.to_N (2 ^ 56)); lia).
+  assert (H1 : (Z.to_N M mod 2 ^ 64 = Z.to_N M)%N).
+  { apply N.mod_small. apply N.lt_le_trans with (2 ^ 56)%N; [assumption|]. apply N.pow_le_mono_r; lia. }
+  rewrite H1.
+  assert (H2 : N.land (Z.to_N M) gds_mant_mask = Z.to_N M).
+  { change gds_mant_mask with (N.ones 56). rewrite N.land_ones. apply N.mod_small. assumption. }
+  rewrite H2.
+  assert (H3 : ((64 + E) mod 256 = 64 + E)%Z) by (apply Z.mod_small; lia).
+  rewrite H3.
+  assert (H4 : ((((if neg then 128 else 0) + Z.to_N (64 + E)) mod 256)
+                = (if neg then 128 else 0) + Z.to_N (64 + E))%N).
+  { apply N.mod_small. destruct neg; lia. }
+  rewrite H4. set (u8 := ((if neg then 128 else 0) + Z.to_N (64 + E))%N).
+  rewrite N.shiftl_mul_pow2. rewrite (lor_hl _ _ 56 u8) by (try reflexivity; assumption).
+  rewrite N.shiftr_div_pow2. symmetry.
+  apply (N.div_unique _ (2 ^ 56)%N u8 (Z.to_N M)); [assumption|lia].
+Qed.
+
+(* ================================================================== the top of the range
+   The doubles of the last binade below 16^63 = 2^252 (m * 2^199, all within the format's range: the
+   largest GDSII real is (2^56 - 1) * 2^196) get the largest exponent byte, 127, and decode exactly.
+   (Before the repair of gdsii_real_from_double the libm log2 rounded to 63.0 for the top 88 of them
+   and the incremented exponent overflowed into the sign bit.) *)
+Theorem gds_real_top_binade_lemma neg m :
+  (2 ^ 52 <= m < 2 ^ 53)%Z ->
+  ideal_exponent m 199 = 63%Z
+  /\ N.shiftr (gds_encode neg m 199) 56 = ((if neg then 128 else 0) + 127)%N
+  /\ gds_decode (gds_encode neg m 199) == sgn neg (dyval m 199).
+Proof.
+  intros Hm.
+  assert (HE : ideal_exponent m 199 = 63%Z).
+  { destruct (ideal_exponent_is_ceil m 199 Hm) as [_ H]. lia. }
+  split; [exact HE|]. split.
+  - unfold gds_encode. rewrite HE. rewrite gds_encode_with_first_byte; [reflexivity|lia|].
+    change (199 + 4 * (14 - 63))%Z with 3%Z. rewrite Z.shiftl_mul_pow2 by lia.
+    change (2 ^ 3)%Z with 8%Z. change (2 ^ 56)%Z with (2 ^ 53 * 8)%Z. lia.
+  - apply gds_real_roundtrip_lemma; [assumption|lia].
+Qed.
+
 (* ================================================================== non-vacuity *)
 (* 1.0 = 2^52 * 2^-52 is 0x4110000000000000; the value just below 1 with the exponent one too high
    loses exactly one ulp; a denormalised pattern 0x4201... re-normalises *)
 Example gds_real_nonvacuous :
   ideal_exponent (2 ^ 52) (-52) = 1%Z
-  /\ gds_encode_with 1 false (2 ^ 52) (-52) = 4688247212092686336%N     (* 0x4110000000000000 *)
+  /\ gds_encode false (2 ^ 52) (-52) = 4688247212092686336%N           (* 0x4110000000000000 *)
   /\ gds_decode_dy 4688247212092686336 = (false, 4503599627370496%N, (-52)%Z)
+  /\ gds_encode false (2 ^ 53 - 1) 199 = 9223372036854775800%N         (* 0x7FFFFFFFFFFFFFF8: the former top-binade witness 0x4FAFFFFFFFFFFFFF *)
+  /\ gds_decode_dy 9223372036854775800 = (false, 72057594037927928%N, 196%Z)
   /\ (ideal_exponent (2 ^ 53 - 1) (-53) = 0%Z /\ (2 ^ (4 * 0 - -53) <= 2 * (2 ^ 53 - 1))%Z
       /\ gds_decode_dy (gds_encode_with 1 false (2 ^ 53 - 1) (-53)) = (false, 4503599627370495%N, (-52)%Z))
   /\ swap64 72623859790382856 = 578437695752307201%N                    (* 0x0102030405060708 *)
   /\ swap32 16909060 = 67305985%N /\ swap16 258 = 513%N.
 Proof. vm_compute. repeat split; congruence. Qed.
 
-(* ================================================================== the top of the range
-   The one-ulp theorem needs E* + 1 <= 63.  For the doubles just below 16^63 = 2^252 (E* = 63, all of
-   them within the format's range: the largest GDSII real is (2^56 - 1) * 2^196) the C++ computes
-   0.25 * log2 x = 63.0 after rounding and increments: E = 64.  The exponent byte 64 + 64 = 128
-   overflows into the sign bit: the faithful model returns 0x800FFFFFFFFFFFFF, a negative number of
-   magnitude about 2^-260 (finding gdsii_real_from_double:top-binade; the implementation does choose
-   64 here, see the correspondence run). *)
-Theorem gds_real_top_binade_refuted :
-  exists m e : Z,
-    (2 ^ 52 <= m < 2 ^ 53)%Z /\ ideal_exponent m e = 63%Z
-    /\ (2 ^ (4 * ideal_exponent m e - e) <= 2 * m)%Z
-    /\ gds_encode_with (ideal_exponent m e + 1) false m e = 9227875636482146303%N   (* 0x800FFFFFFFFFFFFF *)
-    /\ ~ (Qabs (gds_decode (gds_encode_with (ideal_exponent m e + 1) false m e) - dyval m e) <= Qpow2 e).
-Proof.
-  exists (2 ^ 53 - 1)%Z, 199%Z.
-  split; [vm_compute; split; [discriminate|reflexivity]|].
-  split; [vm_compute; reflexivity|]. split; [vm_compute; discriminate|].
-  split; [vm_compute; reflexivity|].
-  intros H. apply Qle_bool_iff in H. vm_compute in H. discriminate H.
-Qed.
-
 Print Assumptions gds_real_decode_encode_lemma.
-Print Assumptions gds_real_top_binade_refuted.
+Print Assumptions gds_real_roundtrip_lemma.
+Print Assumptions gds_real_roundtrip_double_lemma.
+Print Assumptions gds_real_top_binade_lemma.
 Print Assumptions gds_real_decode_encode_ulp_lemma.
 Print Assumptions side_condition_Q.
 Print Assumptions gds_real_encode_decode_lemma.
